@@ -94,7 +94,10 @@ def match1(a: str) -> bool:
     sid = Sid(e)
     if not sid or sid.is_search() or e.split("/")[-1] in conf.extension_alias:
         return True          # self must be a typed, concrete Sid (an alias as last value is a search form)
-    got = sid.match(SEARCH)
+    try:
+        got = sid.match(SEARCH)
+    except SpilException:
+        return PATTERNS is None or fail("unexpected-spilexception")      # a malformed search (e.g. two '**') raises, as find does
     if PATTERNS is None:
         return True
     want = len(glob_ref.found(PATTERNS, [e])) == 1
